@@ -172,3 +172,50 @@ def check_C07(ctx, replay=None):
                    "forwarding between replicas is not exercised",
                    "answers that reveal fewer events than are visible are counted (answers_with_fewer_than_visible), not judged: "
                    "the statement bounds what may be revealed"])
+
+
+def check_C12(ctx, replay=None):
+    quick = ctx.quick()
+    runs = []
+    for limit, nd in ((2, 5), (1, 4)) if quick else ((2, 6), (1, 5), (3, 6)):
+        cfg = core.make_cfg(ctx, "MCReplicator.cfg", Limit=limit, MaxDeliveries=nd)
+        ex = run_tlc(ctx, "Replicator", cfg, workers=8, timeout=3000, xmx="10g")
+        core.require_actions(ex, ["Deliver", "Expire", "CatchUp"], "replicator limit=%d" % limit)
+        _tlc_must_hold(ctx, ex, "c12:tlc-invariant")
+        runs.append(ex)
+    if not quick:
+        dv = run_tlc(ctx, "Replicator", "MCReplicatorDev.cfg", workers=4, timeout=900, tags=(), expect_error=True)
+        if dv.ok:
+            raise core.ToolError("specification self-test failed: MCReplicatorDev.cfg should violate NoPendingBelowNext")
+    # behaviours: all without timers (fast), plus a sample of those that wait for a real timer
+    cap = 160 if quick else 2500
+    for r in runs:
+        fast = [p for p in r.prints if not any(s["op"] in ("expire", "catchup") for s in p[1]["steps"])]
+        slow = [p for p in r.prints if any(s["op"] in ("expire", "catchup") for s in p[1]["steps"])]
+        r.prints = fast[:: max(1, len(fast) // cap)][:cap] + slow[:: max(1, len(slow) // (cap // 4))][: cap // 4]
+    plans, n = _plans(ctx, runs, "replicator-plans.ndjson")
+    binary = cargo_build(ctx, "h-cluster")
+    hr = run_harness(ctx, binary, ["replicator", plans], timeout=9000)
+    for v in hr.violations:
+        add_violation(ctx, v["key"], v["detail"], v["replay"])
+    cov = {
+        "states": sum(r.distinct for r in ctx.tlc_runs), "transitions": sum(r.generated for r in ctx.tlc_runs),
+        "traces_validated_against_impl": hr.stats["evaluations"], "samples": hr.stats.get("samples", []),
+        "evaluations": hr.stats["evaluations"], "distinct_nontrivial": hr.stats["distinct_classes"],
+        "with_expiry": hr.stats.get("with_expiry"), "with_catchup": hr.stats.get("with_catchup"),
+        "steps_replayed": hr.stats.get("steps_replayed"),
+        "rule": "Replicator.tla transcribes the ordered buffer (insert at / before / after the next expected sequence, merge of "
+                "duplicates, conflict, eviction of the largest key, refusal when full), the drain loop, expiry and catch-up from "
+                "the coordinator's confirmed log; TLC explores every delivery order of six transactions (single and 2-event, one "
+                "conflicting, one inside a multi-event range) with buffer limits 1-3 and checks AppliedAtAssignedSeq, AtMostOnce, "
+                "NoPendingBelowNext, RejectLeavesLogUnchanged, AllAnsweredAtRest. One behaviour per distinct quiescent final state "
+                "is replayed on a real PartitionReplicatorActor (real Database and ConfirmationActor; catch-up served by the "
+                "process's real ClusterActor over a coordinator database): each delivery is a real ReplicateWrite ask, expiry and "
+                "catch-up are waited for on the real timers; the reply of every delivery and the replica's partition log must be "
+                "the specification's. distinct_nontrivial = (set of reply kinds, timer) classes replayed.",
+    }
+    return finish(ctx, "model_checking", cov,
+                  ["the replica's database is written by its replicator only (a node that also coordinates writes to the same "
+                   "partition is outside the property's quantifier)",
+                   "expiry and catch-up are alternatives of one actor configuration (which timer is shorter); behaviours "
+                   "containing both are not replayed"])
